@@ -54,7 +54,7 @@ def op(draw):
 
 def strategy(tier):
     return st.fixed_dictionaries({
-        "table": gen.table(1, 12, bulk_max=40),
+        "table": gen.table(1, 12, bulk_max=40, bulk_large=(250, 600)),
         "dims": st.lists(dims3, min_size=7, max_size=7),  # tomogram ids 1..7 (particles use 1..4)
         "ops": st.lists(op(), min_size=1, max_size=6),
     })
@@ -121,6 +121,9 @@ def run(case):
             return False
         ok_, C = call(out, "get_coordinates", lambda: m.get_coordinates())
         if not ok_:
+            return False
+        C = np.asarray(C, float)
+        if not out.check(C.shape == P.shape, f"{label}:get_coordinates_shape", f"step {step}: {C.shape} for {n} particles"):
             return False
         tolp = 1e-9 * np.maximum(1.0, np.abs(P)) * max(1.0, scale_hist) + slack[0] * near_gimbal[:, None]
         bad = np.abs(C - P) > tolp
@@ -191,9 +194,10 @@ def run(case):
             else:
                 tab = dims_table(case, o, tomo)
                 if o["form"] == "file":
-                    np.savetxt("dims_%d.txt" % step, tab, fmt="%d")
-                    arg = "dims_%d.txt" % step if len(tab) > 1 or True else None
-                    np.savetxt("dims_all.txt", tab, fmt="%d")
+                    # any number format a text file may use: integers, fixed point, numpy's default exponent notation
+                    fmt = ["%d", "%.1f", "%.18e", "%g", "%d"][(step + n + len(tab)) % 5]
+                    out.label(f"dims_file_format:{fmt}")
+                    np.savetxt("dims_all.txt", tab, fmt=fmt)
                     arg = "dims_all.txt"  # the same path in every step of the history
                 else:
                     arg = tab if o["form"] == "array" else pd.DataFrame(tab)
